@@ -110,6 +110,12 @@ pub fn main(args: &[String]) -> i32 {
     if fault_at >= 0 {
         feoxdb::verif::set_fault_fn(Some(Box::new(move |idx, _kind, _sector, _len| {
             let hit = if fault_from { idx as i64 >= fault_at } else { idx as i64 >= fault_at && (idx as i64) < fault_at + fault_count };
+            if fault_mode == 3 {
+                // determinate outage: every record write of a batch fails, clean-up, journal, marker and
+                // metadata writes succeed
+                return if idx as i64 >= fault_at && _kind == "write" && _sector >= 16 && obs::IN_BATCH.load(std::sync::atomic::Ordering::SeqCst)
+                    && !HEALED.load(std::sync::atomic::Ordering::SeqCst) { 1 } else { 0 };
+            }
             if hit && !HEALED.load(std::sync::atomic::Ordering::SeqCst) { fault_mode } else { 0 }
         })));
     }
@@ -163,6 +169,12 @@ pub fn main(args: &[String]) -> i32 {
     let edge_pct: u32 = o.num("edges", 25u32);
     let wide: usize = o.num("wide", 0);
     let wide_every: usize = o.num("wideevery", 12usize).max(2);
+    // backlog of untracked filler records (keys outside the universe of the trace): more than one
+    // allocation-journal batch (1024 entries) queued in front of the tracked writes
+    let fillers: usize = o.num("fillers", 0);
+    for i in 0..fillers {
+        let _ = store.insert(format!("zf{i:05}").as_bytes(), format!("filler-{i}").as_bytes());
+    }
     // buffer-filling burst: more than WRITE_BUFFER_SIZE entries into one shard
     let burst: usize = o.num("burst", 0);
     if burst > 0 {
